@@ -22,6 +22,8 @@ import (
 //	elseif else match   an if uses them / a match expression is present
 //	call recursion      user functions are called / call themselves
 //	static defaults     static locals / parameter defaults are used
+//	null                the null literal occurs
+//	counter-write       a statement writes the counter (or foreach variable) of a loop around it
 func Signature(p *Program) []string {
 	set, constructs, jumps := features(p)
 	if !jumps {
@@ -53,6 +55,8 @@ func features(p *Program) (set, constructs map[string]bool, jumps bool) {
 			}
 		case EMatch:
 			set["match"] = true
+		case ENull:
+			set["null"] = true
 		}
 		for _, a := range e.A {
 			ex(a, fn)
@@ -64,9 +68,18 @@ func features(p *Program) (set, constructs map[string]bool, jumps bool) {
 			}
 		}
 	}
+	var counters []string // counters / foreach variables of the enclosing loops
 	var st func(ss []*Stmt, path string, fn string)
 	st = func(ss []*Stmt, path string, fn string) {
 		for _, s := range ss {
+			switch s.K {
+			case SAssign, SOpAssign, SIncDec:
+				for _, c := range counters {
+					if c == s.Var {
+						set["counter-write"] = true
+					}
+				}
+			}
 			ex(s.E, fn)
 			ex(s.Init, fn)
 			ex(s.Subj, fn)
@@ -95,7 +108,13 @@ func features(p *Program) (set, constructs map[string]bool, jumps bool) {
 				}
 			case SLoop:
 				constructs[s.Loop] = true
+				n := len(counters)
+				counters = append(counters, s.Var)
+				if s.Key != "" {
+					counters = append(counters, s.Key)
+				}
 				st(s.Body, path+s.Loop+">", fn)
+				counters = counters[:n]
 			case SSwitch:
 				constructs["switch"] = true
 				for i, c := range s.Cases {
@@ -112,8 +131,10 @@ func features(p *Program) (set, constructs map[string]bool, jumps bool) {
 		for _, pa := range f.Params {
 			if pa.Def != nil {
 				set["defaults"] = true
+				ex(pa.Def, f.Name)
 			}
 		}
+		counters = nil
 		st(f.Body, "", f.Name)
 	}
 	st(p.Main, "", "")
@@ -145,7 +166,7 @@ func endsInJump(ss []*Stmt) bool {
 
 // flagTokens are the signature tokens that name a phenomenon rather than a position.
 var flagTokens = map[string]bool{"fallthrough": true, "static": true, "recursion": true, "defaults": true,
-	"elseif": true, "else": true, "match": true, "call": true, "switch": true}
+	"elseif": true, "else": true, "match": true, "call": true, "switch": true, "null": true, "counter-write": true}
 
 // Flags returns the phenomenon tokens of Signature(p). Reducers should only accept candidates whose
 // flags are a subset of the original's: deleting the `break` that ends a case, for instance,
